@@ -240,7 +240,32 @@ func Check(c *Case) (res kit.Result) {
 			res.Failf("Slice(0,0) on Alloc(%+v) reports %+v", c.alloc(), h)
 			return
 		}
-		sizesOK(&res, "after Slice(0,0)", c, b, bits)
+		if !sizesOK(&res, "after Slice(0,0)", c, b, bits) {
+			return
+		}
+		if c.C > 0 && c.K == 0 {
+			// the window and the buffer are two buffers: growing one of them by an Append (the only
+			// way a zero-capacity buffer gets content) must leave the other one inert
+			grow, other, what := s, b, "the buffer after its Slice(0,0) window grew by an Append"
+			if c.N%2 == 1 {
+				grow, other, what = b, s, "the Slice(0,0) window after its buffer grew by an Append"
+			}
+			src := kit.AnyRoot(c.T, c.C, 1+c.N%3)
+			if p, v := kit.Try(func() { grow.Append(src) }); p {
+				res.Failf("Append onto an empty zero-capacity buffer of Alloc(%+v) panicked: %v", c.alloc(), v)
+				return
+			}
+			if h := other.Hdr(); h.Len != 0 || h.Cap != 0 || h.Length != 0 || h.Capacity != 0 || h.Channels != c.C {
+				res.Failf("%s reports %+v, want an empty zero-capacity buffer of %d channels", what, h, c.C)
+				return
+			}
+			other.AppendSample(kit.IV(4))
+			if out, n := other.ReadVals(2); n != 0 || out[0].String() != "0" || other.Len() != 0 {
+				res.Failf("%s: AppendSample/Read are no longer without effect (Read returned %d, Len %d)", what, n, other.Len())
+				return
+			}
+			res.Class("windowAndBufferGrowIndependently")
+		}
 	case "channel0":
 		b := kit.AllocAny(c.T, c.alloc())
 		var ln, cp, ch int
